@@ -70,6 +70,25 @@ def gen(rng):
         f = rng.choice([0.42, 0.45, 0.38])
         s.frames[fr][a] = [round(s.frames[fr][mol * natm + first][i] + f * L[i], 3) for i in range(3)]
         s.far = (fr, a)
+    # placements relative to the box faces: in about half of the runs atoms are moved by whole box vectors (any atom, any
+    # frame, up to three images away along every box vector), so that molecules are cut by 0..3 faces and the boxes of
+    # successive frames (which differ) are each used for the unwrapping of their own frame
+    s.wrapped = 0
+    if rng.random() < 0.5:
+        for fr in range(len(s.frames)):
+            kind, L, off = s.boxes[fr]
+            if kind == "t" and s.fin != "dump":
+                vecs = [(L[0], 0, 0), (off[0], L[1], 0), (off[1], off[2], L[2])]
+            else:
+                vecs = [(L[0], 0, 0), (0, L[1], 0), (0, 0, L[2])]
+            for a in range(len(s.frames[fr])):
+                if rng.random() < 0.3:
+                    k = [rng.choice([-3, -2, -1, -1, 0, 0, 1, 1, 2, 3]) for _ in range(3)]
+                    if k == [0, 0, 0]:
+                        continue
+                    x = s.frames[fr][a]
+                    s.frames[fr][a] = [round(x[i] + sum(k[j] * vecs[j][i] for j in range(3)), 3) for i in range(3)]
+                    s.wrapped += 1
     s.first, s.nframes = 0, -1
     return s
 
